@@ -1,8 +1,1564 @@
-//! C17 - not built yet
+//! C17 - negotiated limits are honoured: channel-max and idle time-outs.
+//!
+//! Part 1 (channel-max): for every pair (local channel-max, remote channel-max) the real connection
+//! engine is driven through ALL histories over {begin a session, end the oldest, end the newest} up to a
+//! depth (client role against the scripted peer), plus "fill" runs that begin sessions until the library
+//! refuses (so that the limit is really reached for 255 and 65535 too), plus the listener role where a
+//! scripted client begins sessions - also on channels above the limit and more than allowed.
+//!   Oracle (safety, strict): no begin frame written by the library carries a channel number above
+//!   min(local, remote); never more than min+1 sessions are mapped at once.
+//!   Oracle (liveness, permissive): a `Session::begin` that fails although at most `min` sessions are open
+//!   is reported; channel-max N allows channels 0..=N, i.e. N+1 sessions.
+//!   Bounds: pairs {0,1,2,255,65535}^2; client histories depth 8 (quick) / 11 (thorough), listener
+//!   histories depth 7 / 9; fill runs for all 25 pairs in both tiers (65536 sessions for 65535/65535).
+//!
+//! Part 2 (idle time-out, virtual time): the peer advertises idle-time-out T, the library is configured
+//! with idle time-out L; traffic patterns of the application (silence / steady / bursts separated by
+//! gaps T-1 ms, T, T+1 ms) and of the peer (silence / an empty frame every L-1 ms / a real frame every
+//! L-1 ms) are laid out on the paused tokio clock.
+//!   Oracle T (measured on the byte log of the transport): while the connection is open no interval
+//!   longer than T passes between the starts of consecutive frames written by the library (empty frames
+//!   count).  Permissive reading: a gap of exactly T passes, only > T fails; the measurement starts when
+//!   the peer's open is written and ends at the library's close frame / teardown / the horizon.
+//!   Oracle L: while the peer's frames arrive less than L apart the connection stays up (`on_close` does
+//!   not resolve, no close frame, sends keep working) for 12*L; once the peer falls silent the
+//!   connection is torn down not earlier than L and not later than 2*L + 50 ms after the last frame
+//!   arrived (AMQP lets an implementation wait up to twice the advertised value; the library advertises
+//!   L/2), `on_close()` reports an error that names the idle time-out, and the transport is closed or a
+//!   close frame is written.  With L unset or 0 no idle teardown may happen at all.
+use fe2o3_amqp::acceptor::{ConnectionAcceptor, ListenerSessionHandle, SessionAcceptor};
+use fe2o3_amqp::session::{BeginError, SessionHandle};
+use fe2o3_amqp::{Connection, Sender, Session};
+use fe2o3_amqp_types::definitions::{Handle, SenderSettleMode};
+use fe2o3_amqp_types::performatives::*;
+use serde_json::{json, Value as J};
+use std::collections::{BTreeSet, VecDeque};
+use std::sync::atomic::{AtomicU64, Ordering};
+use std::sync::{Arc, Mutex};
+use std::time::{Duration, Instant};
+use vlib::history::{search, HistOut};
+use vlib::peer::{drive, settle, trace_to_strings, Auto, Body, Dirn, Peer, WFrame, AMQP_HEADER};
 use vlib::report::{Ctx, Outcome};
+use vlib::runner::{run_exec, RunCfg, Scenario};
+use vlib::util::{h64, par_map};
+use vlib::vpipe::{LogEntry, Pipe};
 
-pub fn run(_ctx: &Ctx) -> Outcome {
+const CHMAX: [u16; 5] = [0, 1, 2, 255, 65535];
+
+#[derive(Debug, Clone, Copy, PartialEq, Eq, Hash)]
+pub enum Role {
+    Client,
+    Listener,
+}
+
+// ================================================================================================
+// Part 1: channel-max
+// ================================================================================================
+
+/// client-role events
+#[derive(Debug, Clone, Copy, PartialEq, Eq, Hash)]
+pub enum CEv {
+    Begin,
+    EndOldest,
+    EndNewest,
+}
+pub const CALPHA: [CEv; 3] = [CEv::Begin, CEv::EndOldest, CEv::EndNewest];
+
+/// listener-role events (performed by the scripted client)
+#[derive(Debug, Clone, Copy, PartialEq, Eq, Hash)]
+pub enum LEv {
+    /// begin on the lowest channel number the scripted client has free (goes above the limit once more
+    /// than min+1 sessions are open: "more than allowed")
+    PBeginLow,
+    /// begin on channel min+1: a channel number above the negotiated maximum
+    PBeginHigh,
+    PEndOldest,
+    PEndNewest,
+}
+pub const LALPHA: [LEv; 4] = [LEv::PBeginLow, LEv::PBeginHigh, LEv::PEndOldest, LEv::PEndNewest];
+
+#[derive(Debug, Clone, Default)]
+pub struct ChObs {
+    pub executed: usize,
+    pub fails: Vec<(String, String)>,
+    pub state_keys: Vec<u64>,
+    pub trace: Vec<String>,
+    pub machinery: Option<String>,
+    /// Session::begin refused locally (client) / connection closed on an excess begin (listener)
+    pub refusals: u64,
+    /// begin frames written by the library
+    pub lib_begins: u64,
+    pub max_open: usize,
+    /// highest channel number the library put a begin on
+    pub max_channel: Option<u16>,
+    /// listener: begins of the scripted client that exceeded the limit (channel number or count)
+    pub peer_excess: u64,
+}
+
+/// Watches everything the library writes: the safety clause of the property.
+struct WireMon {
+    role: Role,
+    m: u16,
+    cursor: usize,
+    open: BTreeSet<u16>,
+    max_open: usize,
+    begins: u64,
+    max_channel: Option<u16>,
+    close: Option<bool>, // library's close frame: Some(has error)
+    fails: Vec<(String, String)>,
+}
+
+impl WireMon {
+    fn new(role: Role, m: u16) -> Self {
+        WireMon { role, m, cursor: 0, open: BTreeSet::new(), max_open: 0, begins: 0, max_channel: None, close: None, fails: vec![] }
+    }
+    fn scan(&mut self, trace: &[WFrame]) {
+        for w in &trace[self.cursor..] {
+            if w.dir != Dirn::FromLib {
+                continue;
+            }
+            match &w.body {
+                Body::Perf(Performative::Begin(b)) => {
+                    self.begins += 1;
+                    self.max_channel = Some(self.max_channel.map_or(w.channel, |c| c.max(w.channel)));
+                    // THE safety clause: never a begin on a channel number above min(local, remote)
+                    if w.channel > self.m {
+                        self.fails.push((
+                            format!("begin-above-channel-max [{:?}]", self.role),
+                            format!(
+                                "the library wrote begin(remote_channel={:?}) on channel {} although min(local, remote) channel-max is {}",
+                                b.remote_channel, w.channel, self.m
+                            ),
+                        ));
+                    }
+                    // a channel that is still mapped (the library has not ended it) is not free.  Permissive: the
+                    // channel counts as free again as soon as the library has written its end.
+                    if !self.open.insert(w.channel) {
+                        self.fails.push((
+                            format!("begin-on-channel-in-use [{:?}]", self.role),
+                            format!("the library wrote a begin on channel {} which it had begun and not ended", w.channel),
+                        ));
+                    }
+                    self.max_open = self.max_open.max(self.open.len());
+                    // channel-max N = channels 0..=N = at most N+1 sessions
+                    if self.open.len() > self.m as usize + 1 {
+                        self.fails.push((
+                            format!("more-sessions-than-channel-max-allows [{:?}]", self.role),
+                            format!("{} sessions are mapped at once, min(local, remote) channel-max {} allows {}", self.open.len(), self.m, self.m as usize + 1),
+                        ));
+                    }
+                }
+                Body::Perf(Performative::End(_)) => {
+                    self.open.remove(&w.channel);
+                }
+                Body::Perf(Performative::Close(c)) => {
+                    if self.close.is_none() {
+                        self.close = Some(c.error.is_some());
+                    }
+                }
+                _ => {}
+            }
+        }
+        self.cursor = trace.len();
+    }
+}
+
+fn tail_trace(tr: &[WFrame], n: usize) -> Vec<String> {
+    let s = tr.len().saturating_sub(n);
+    let mut v = vec![];
+    if s > 0 {
+        v.push(format!("... ({s} earlier frames omitted)"));
+    }
+    v.extend(tr[s..].iter().map(|f| f.short()));
+    v
+}
+
+/// Client role: the real `Connection`/`Session` API against the scripted peer.
+pub async fn chmax_client(local: u16, remote: u16, events: Vec<CEv>, light: bool) -> ChObs {
+    let mut obs = ChObs::default();
+    let m = local.min(remote);
+    let (pipe, a, _b) = Pipe::new();
+    let mut auto = Auto::default();
+    auto.max_frame_size = 4096;
+    auto.channel_max = remote;
+    let mut peer = Peer::new(pipe.clone(), 1, auto);
+    let h = Duration::from_secs(5);
+    let opened = drive(
+        &mut peer,
+        Connection::builder().container_id("lib").max_frame_size(4096).channel_max(local).open_with_stream(a),
+        h,
+    )
+    .await;
+    let mut conn = match opened {
+        Some(Ok(c)) => c,
+        other => {
+            obs.machinery = Some(format!(
+                "client open (local {local}, remote {remote}) did not succeed: {:?}; trace {:?}",
+                other.map(|r| r.map(|_| ()).map_err(|e| e.to_string())),
+                trace_to_strings(&peer.trace)
+            ));
+            return obs;
+        }
+    };
+    settle(&mut peer, 1).await;
+    let mut mon = WireMon::new(Role::Client, m);
+    mon.scan(&peer.trace);
+    // sessions in order of age, with the channel the library chose
+    let mut sessions: VecDeque<(u16, SessionHandle<()>)> = VecDeque::new();
+    let mut set_hash = 0u64;
+    obs.state_keys.push(h64(&(0usize, 0u64, "open")));
+    let rounds = if light { 1 } else { 2 };
+    for (i, ev) in events.iter().enumerate() {
+        let enabled = match ev {
+            CEv::Begin => true,
+            CEv::EndOldest => !sessions.is_empty(),
+            // with one session oldest == newest
+            CEv::EndNewest => sessions.len() >= 2,
+        };
+        if !enabled {
+            break;
+        }
+        let mark = peer.trace.len();
+        let result: &'static str;
+        match ev {
+            CEv::Begin => {
+                let open_before = sessions.len();
+                let r = drive(&mut peer, Session::begin(&mut conn), h).await;
+                let begin_frame = peer.trace[mark..].iter().find_map(|w| match (&w.body, w.dir) {
+                    (Body::Perf(Performative::Begin(_)), Dirn::FromLib) => Some(w.channel),
+                    _ => None,
+                });
+                match r {
+                    Some(Ok(s)) => {
+                        let Some(ch) = begin_frame else {
+                            obs.machinery = Some(format!("event {i}: Session::begin returned Ok but no begin frame is on the wire; {:?}", tail_trace(&peer.trace, 12)));
+                            break;
+                        };
+                        set_hash ^= h64(&ch);
+                        sessions.push_back((ch, s));
+                        result = "begun";
+                    }
+                    Some(Err(e)) => {
+                        obs.refusals += 1;
+                        let local_refusal = matches!(e, BeginError::LocalChannelMaxReached);
+                        // liveness clause, permissive: only reported when at most `min` sessions are open, i.e. a
+                        // channel in 0..=min is certainly free
+                        if open_before <= m as usize {
+                            let sig = if local_refusal { "begin-refused-below-limit" } else { "begin-failed-below-limit" };
+                            obs.fails.push((
+                                format!("{sig} [Client]"),
+                                format!(
+                                    "event {i}: Session::begin failed with {:?} while only {open_before} sessions are open; min(local {local}, remote {remote}) = {m} allows {} sessions",
+                                    e,
+                                    m as usize + 1
+                                ),
+                            ));
+                        }
+                        result = if local_refusal { "refused" } else { "failed" };
+                    }
+                    None => {
+                        // "refusing locally instead": a begin at the limit that neither goes out nor fails
+                        if begin_frame.is_none() {
+                            obs.fails.push((
+                                "begin-hangs-instead-of-refusing [Client]".into(),
+                                format!("event {i}: Session::begin with {open_before} sessions open (limit {}) neither wrote a begin nor returned within 5 s of virtual time", m as usize + 1),
+                            ));
+                        } else {
+                            obs.machinery = Some(format!("event {i}: Session::begin still pending after 5 s although the peer answered; {:?}", tail_trace(&peer.trace, 12)));
+                        }
+                        obs.executed = i + 1;
+                        mon.scan(&peer.trace);
+                        break;
+                    }
+                }
+            }
+            CEv::EndOldest | CEv::EndNewest => {
+                let (ch, mut s) = if *ev == CEv::EndOldest { sessions.pop_front().unwrap() } else { sessions.pop_back().unwrap() };
+                set_hash ^= h64(&ch);
+                match drive(&mut peer, s.end(), h).await {
+                    Some(Ok(())) => result = "ended",
+                    other => {
+                        obs.machinery = Some(format!(
+                            "event {i}: Session::end on channel {ch} did not complete cleanly: {:?}; {:?}",
+                            other.map(|r| r.map_err(|e| e.to_string())),
+                            tail_trace(&peer.trace, 12)
+                        ));
+                        break;
+                    }
+                }
+            }
+        }
+        settle(&mut peer, rounds).await;
+        mon.scan(&peer.trace);
+        obs.executed = i + 1;
+        obs.state_keys.push(h64(&(
+            sessions.len(),
+            set_hash,
+            sessions.front().map(|s| s.0),
+            sessions.back().map(|s| s.0),
+            result,
+        )));
+        if !mon.fails.is_empty() {
+            break;
+        }
+    }
+    obs.fails.extend(mon.fails.drain(..));
+    obs.lib_begins = mon.begins;
+    obs.max_open = mon.max_open;
+    obs.max_channel = mon.max_channel;
+    obs.trace = if light { tail_trace(&peer.trace, 16) } else { trace_to_strings(&peer.trace) };
+    obs.trace.push(format!(
+        "local={local} remote={remote} min={m}: open channels now {:?}{}, refusals {}, begins on the wire {}, highest channel {:?}",
+        sessions.iter().take(12).map(|s| s.0).collect::<Vec<_>>(),
+        if sessions.len() > 12 { format!(" .. ({} sessions)", sessions.len()) } else { String::new() },
+        obs.refusals,
+        obs.lib_begins,
+        obs.max_channel
+    ));
+    drop(sessions);
+    drop(conn);
+    obs
+}
+
+/// events of a "fill" run: begin until one past the limit, free two channels, take them again, one more
+pub fn fill_events(m: u16) -> Vec<CEv> {
+    let mut v = vec![CEv::Begin; m as usize + 2];
+    if m >= 2 {
+        v.extend([CEv::EndOldest, CEv::EndNewest, CEv::Begin, CEv::Begin, CEv::Begin]);
+    } else {
+        v.extend([CEv::EndOldest, CEv::Begin, CEv::Begin]);
+    }
+    v
+}
+
+fn peer_open(channel_max: u16, idle: Option<u32>) -> Open {
+    Open {
+        container_id: "scripted-peer".into(),
+        hostname: None,
+        max_frame_size: 4096.into(),
+        channel_max: channel_max.into(),
+        idle_time_out: idle,
+        outgoing_locales: None,
+        incoming_locales: None,
+        offered_capabilities: None,
+        desired_capabilities: None,
+        properties: None,
+    }
+}
+
+fn peer_begin() -> Begin {
+    Begin {
+        remote_channel: None,
+        next_outgoing_id: 0,
+        incoming_window: 1000,
+        outgoing_window: 1000,
+        handle_max: Handle(100),
+        offered_capabilities: None,
+        desired_capabilities: None,
+        properties: None,
+    }
+}
+
+/// Listener role: the scripted client begins sessions against the real acceptor.
+pub async fn chmax_listener(local: u16, remote: u16, events: Vec<LEv>) -> ChObs {
+    let mut obs = ChObs::default();
+    let m = local.min(remote);
+    let (pipe, a, _b) = Pipe::new();
+    let mut auto = Auto::none();
+    auto.max_frame_size = 4096;
+    let mut peer = Peer::new(pipe.clone(), 1, auto);
+    let h = Duration::from_secs(5);
+    peer.send_proto_header(AMQP_HEADER);
+    peer.send(0, Performative::Open(peer_open(remote, None)));
+    let acceptor = ConnectionAcceptor::builder().container_id("lib-listener").max_frame_size(4096).channel_max(local).build();
+    let mut conn = match drive(&mut peer, acceptor.accept(a), h).await {
+        Some(Ok(c)) => c,
+        other => {
+            obs.machinery = Some(format!(
+                "listener accept (local {local}, remote {remote}) did not succeed: {:?}; trace {:?}",
+                other.map(|r| r.map(|_| ()).map_err(|e| e.to_string())),
+                trace_to_strings(&peer.trace)
+            ));
+            return obs;
+        }
+    };
+    settle(&mut peer, 1).await;
+    let sacc = SessionAcceptor::new();
+    let mut mon = WireMon::new(Role::Listener, m);
+    mon.scan(&peer.trace);
+    // (peer channel, library channel if answered, handle)
+    let mut sessions: VecDeque<(u16, Option<u16>, Option<ListenerSessionHandle>)> = VecDeque::new();
+    let mut closed = false;
+    obs.state_keys.push(h64(&(0usize, "open")));
+    for (i, ev) in events.iter().enumerate() {
+        let used: BTreeSet<u16> = sessions.iter().map(|s| s.0).collect();
+        let low = (0..=u16::MAX).find(|c| !used.contains(c));
+        let high = m.checked_add(1).filter(|c| !used.contains(c));
+        let enabled = !closed
+            && match ev {
+                LEv::PBeginLow => low.is_some(),
+                // when the lowest free channel IS min+1 the two begin events coincide
+                LEv::PBeginHigh => high.is_some() && high != low,
+                LEv::PEndOldest => !sessions.is_empty(),
+                LEv::PEndNewest => sessions.len() >= 2,
+            };
+        if !enabled {
+            break;
+        }
+        let mark = peer.trace.len();
+        let result: String;
+        match ev {
+            LEv::PBeginLow | LEv::PBeginHigh => {
+                let pch = if *ev == LEv::PBeginLow { low.unwrap() } else { high.unwrap() };
+                let excess = pch > m || sessions.len() > m as usize;
+                if excess {
+                    obs.peer_excess += 1;
+                }
+                peer.send(pch, Performative::Begin(peer_begin()));
+                settle(&mut peer, 1).await;
+                let mut handle = None;
+                match tokio::time::timeout(Duration::from_millis(2), conn.next_incoming_session()).await {
+                    Ok(Some(inc)) => match drive(&mut peer, sacc.accept_incoming_session(inc, &mut conn), h).await {
+                        Some(Ok(hd)) => handle = Some(hd),
+                        Some(Err(e)) => obs.trace.push(format!("event {i}: accept_incoming_session -> {e:?}")),
+                        None => obs.trace.push(format!("event {i}: accept_incoming_session pending")),
+                    },
+                    Ok(None) => {}
+                    Err(_) => {}
+                }
+                settle(&mut peer, 1).await;
+                let lib_ch = peer.trace[mark..].iter().find_map(|w| match (&w.body, w.dir) {
+                    (Body::Perf(Performative::Begin(b)), Dirn::FromLib) if b.remote_channel == Some(pch) => Some(w.channel),
+                    _ => None,
+                });
+                result = format!("begin->{:?}", lib_ch.is_some());
+                sessions.push_back((pch, lib_ch, handle));
+            }
+            LEv::PEndOldest | LEv::PEndNewest => {
+                let (pch, _lib_ch, hd) = if *ev == LEv::PEndOldest { sessions.pop_front().unwrap() } else { sessions.pop_back().unwrap() };
+                peer.send(pch, Performative::End(End { error: None }));
+                settle(&mut peer, 2).await;
+                drop(hd);
+                result = "end".into();
+            }
+        }
+        settle(&mut peer, 1).await;
+        mon.scan(&peer.trace);
+        if let Some(with_err) = mon.close {
+            if !closed {
+                closed = true;
+                if with_err {
+                    obs.refusals += 1;
+                }
+                // a conforming peer answers the close
+                peer.send(0, Performative::Close(Close { error: None }));
+                settle(&mut peer, 2).await;
+                mon.scan(&peer.trace);
+            }
+        }
+        if conn.is_closed() {
+            closed = true;
+        }
+        obs.executed = i + 1;
+        obs.state_keys.push(h64(&(sessions.iter().map(|s| (s.0, s.1)).collect::<Vec<_>>(), closed, mon.close, result)));
+        if !mon.fails.is_empty() {
+            break;
+        }
+    }
+    obs.fails.extend(mon.fails.drain(..));
+    obs.lib_begins = mon.begins;
+    obs.max_open = mon.max_open;
+    obs.max_channel = mon.max_channel;
+    let mut t = trace_to_strings(&peer.trace);
+    t.append(&mut obs.trace);
+    t.push(format!(
+        "local={local} remote={remote} min={m}: sessions (peer ch, lib ch) {:?}, closed={closed}, close-with-error={:?}, begins by the library {}, highest channel {:?}",
+        sessions.iter().map(|s| (s.0, s.1)).collect::<Vec<_>>(),
+        mon.close,
+        obs.lib_begins,
+        obs.max_channel
+    ));
+    obs.trace = t;
+    drop(sessions);
+    drop(conn);
+    obs
+}
+
+#[derive(Default)]
+struct ChCounters {
+    refusals: AtomicU64,
+    lib_begins: AtomicU64,
+    limit_reached: AtomicU64,
+    peer_excess: AtomicU64,
+}
+
+fn finish_exec<O>(ex: &vlib::runner::Exec<O>, out: &mut HistOut, what: &str) {
+    if ex.watchdog {
+        out.machinery = Some(format!("{what}: the execution did not finish in real time (watchdog)"));
+    }
+    if ex.spun {
+        out.machinery = Some(format!("{what}: some task polled more than 20000 times at one virtual instant (busy loop); trace {:?}", out.trace));
+    }
+    if !ex.panics.is_empty() {
+        out.machinery = Some(format!("{what}: panic(s) during the execution: {:?}; trace {:?}", ex.panics, out.trace));
+    }
+}
+
+fn apply_chobs(o: ChObs, out: &mut HistOut, cnt: Option<&ChCounters>, m: u16) {
+    if let Some(c) = cnt {
+        c.refusals.fetch_add(o.refusals, Ordering::Relaxed);
+        c.lib_begins.fetch_add(o.lib_begins, Ordering::Relaxed);
+        c.peer_excess.fetch_add(o.peer_excess, Ordering::Relaxed);
+        if o.max_open == m as usize + 1 {
+            c.limit_reached.fetch_add(1, Ordering::Relaxed);
+        }
+    }
+    out.executed = o.executed;
+    out.fails = o.fails;
+    out.state_keys = o.state_keys;
+    out.trace = o.trace;
+    out.machinery = o.machinery;
+}
+
+fn run_client_history(local: u16, remote: u16, evs: Vec<CEv>, light: bool, cnt: Option<&ChCounters>) -> HistOut {
+    let n = evs.len();
+    let scen: Scenario<ChObs> = Arc::new(move || Box::pin(chmax_client(local, remote, evs.clone(), light)));
+    let mut cfg = RunCfg::none();
+    if light {
+        cfg.real_timeout = Duration::from_secs(600);
+    }
+    let ex = run_exec(vec![], &cfg, &scen);
+    let mut out = HistOut::default();
+    let what = format!("channel-max client local={local} remote={remote}");
+    match ex.out {
+        Some(ref o) => apply_chobs(o.clone(), &mut out, cnt, local.min(remote)),
+        None => {
+            out.executed = n;
+            if !ex.watchdog {
+                out.machinery = Some(format!("{what}: scenario panicked: {:?}", ex.panics));
+                return out;
+            }
+        }
+    }
+    finish_exec(&ex, &mut out, &what);
+    out
+}
+
+fn run_listener_history(local: u16, remote: u16, evs: Vec<LEv>, cnt: Option<&ChCounters>) -> HistOut {
+    let n = evs.len();
+    let scen: Scenario<ChObs> = Arc::new(move || Box::pin(chmax_listener(local, remote, evs.clone())));
+    let ex = run_exec(vec![], &RunCfg::none(), &scen);
+    let mut out = HistOut::default();
+    let what = format!("channel-max listener local={local} remote={remote}");
+    match ex.out {
+        Some(ref o) => apply_chobs(o.clone(), &mut out, cnt, local.min(remote)),
+        None => {
+            out.executed = n;
+            if !ex.watchdog {
+                out.machinery = Some(format!("{what}: scenario panicked: {:?}", ex.panics));
+                return out;
+            }
+        }
+    }
+    finish_exec(&ex, &mut out, &what);
+    out
+}
+
+// ================================================================================================
+// Part 2: idle time-outs on the virtual clock
+// ================================================================================================
+
+/// what the application on the library's side does
+#[derive(Debug, Clone, Copy, PartialEq, Eq, Hash)]
+pub enum LibPat {
+    Silent,
+    /// one pre-settled transfer every T/4
+    Steady,
+    /// bursts of three pre-settled transfers separated by a gap of T + delta ms
+    Bursts(i32),
+}
+
+/// what the scripted peer does
+#[derive(Debug, Clone, Copy, PartialEq, Eq, Hash)]
+pub enum PeerPat {
+    Silent,
+    /// an empty frame every L-1 ms (L unset: every T/2)
+    KeepEmpty,
+    /// a session flow frame every L-1 ms
+    KeepReal,
+}
+
+#[derive(Debug, Clone, Copy, PartialEq, Eq, Hash)]
+pub struct IdleCase {
+    pub role: Role,
+    /// idle-time-out in the peer's open
+    pub t: Option<u32>,
+    /// idle time-out configured on the library's builder
+    pub l: Option<u32>,
+    pub lib: LibPat,
+    pub peer: PeerPat,
+}
+
+impl IdleCase {
+    fn to_json(&self) -> J {
+        let (lib, delta) = match self.lib {
+            LibPat::Silent => ("Silent", 0),
+            LibPat::Steady => ("Steady", 0),
+            LibPat::Bursts(d) => ("Bursts", d),
+        };
+        json!({"part": "idle", "role": format!("{:?}", self.role), "t": self.t, "l": self.l, "lib": lib, "delta": delta, "peer": format!("{:?}", self.peer)})
+    }
+    fn from_json(r: &J) -> Option<IdleCase> {
+        Some(IdleCase {
+            role: if r["role"] == "Listener" { Role::Listener } else { Role::Client },
+            t: r["t"].as_u64().map(|x| x as u32),
+            l: r["l"].as_u64().map(|x| x as u32),
+            lib: match r["lib"].as_str()? {
+                "Silent" => LibPat::Silent,
+                "Steady" => LibPat::Steady,
+                _ => LibPat::Bursts(r["delta"].as_i64()? as i32),
+            },
+            peer: match r["peer"].as_str()? {
+                "Silent" => PeerPat::Silent,
+                "KeepEmpty" => PeerPat::KeepEmpty,
+                _ => PeerPat::KeepReal,
+            },
+        })
+    }
+}
+
+#[derive(Debug, Clone, Default)]
+pub struct IdleObs {
+    pub fails: Vec<(String, String)>,
+    pub machinery: Option<String>,
+    pub keys: Vec<u64>,
+    pub trace: Vec<String>,
+    /// empty frames written by the library
+    pub heartbeats: usize,
+    /// frames written by the library after the peer's open
+    pub lib_frames: usize,
+    pub max_gap_ms: u64,
+    /// gaps between consecutive NON-empty library frames that exceed T: places where only a heartbeat
+    /// could keep the promise (non-vacuity of the heartbeat oracle)
+    pub app_gaps_over_t: usize,
+    /// frames the peer sent in the keep-alive phase
+    pub peer_keepalives: usize,
+    /// the connection was up at the end of the keep-alive phase although L was armed
+    pub kept_up: bool,
+    /// (ms of silence when on_close resolved, result)
+    pub teardown: Option<(u64, String)>,
+    pub sends_ok: usize,
+}
+
+/// Starts of the frames the library wrote (direction 0 of the pipe), with the virtual time of the write
+/// that carried the first byte.  kind: 0xff protocol header, 0 empty frame, otherwise the descriptor
+/// code of the performative (0x10 open .. 0x18 close), 0xfe anything else.  Independent of the
+/// library's codec.
+pub fn lib_frame_starts(log: &[LogEntry]) -> Vec<(Duration, u8)> {
+    let mut out = vec![];
+    let mut buf: VecDeque<(u8, Duration)> = VecDeque::new();
+    for e in log.iter().filter(|e| e.dir == 0) {
+        for b in &e.bytes {
+            buf.push_back((*b, e.t));
+        }
+        loop {
+            if buf.len() < 8 {
+                break;
+            }
+            let head: Vec<u8> = buf.iter().take(8).map(|x| x.0).collect();
+            let t = buf[0].1;
+            if &head[..4] == b"AMQP" {
+                out.push((t, 0xff));
+                buf.drain(..8);
+                continue;
+            }
+            let size = u32::from_be_bytes([head[0], head[1], head[2], head[3]]) as usize;
+            if size < 8 {
+                // not a frame: give up (reported by the caller as a machinery problem through the counts)
+                buf.clear();
+                break;
+            }
+            if buf.len() < size {
+                break;
+            }
+            let fr: Vec<u8> = buf.drain(..size).map(|x| x.0).collect();
+            let doff = fr[4] as usize * 4;
+            let kind = if fr.len() <= doff {
+                0
+            } else if fr.len() >= doff + 3 && fr[doff] == 0x00 && fr[doff + 1] == 0x53 {
+                fr[doff + 2]
+            } else {
+                0xfe
+            };
+            out.push((t, kind));
+        }
+    }
+    out
+}
+
+fn ms(d: Duration) -> u64 {
+    d.as_millis() as u64
+}
+
+fn is_idle_error(s: &str) -> bool {
+    // permissive: anything in the error's Debug or Display text that names an idle time-out / time-out
+    let l = s.to_lowercase();
+    l.contains("idle") || l.contains("timeout") || l.contains("time-out") || l.contains("timed out") || l.contains("time out")
+}
+
+#[derive(Debug, Clone, Copy)]
+enum Act {
+    LibSend(usize),
+    PeerEmpty,
+    PeerReal,
+}
+
+struct Plan {
+    acts: Vec<(u64, Act)>,
+    /// end of the keep-alive phase (0 if there is none)
+    h1: u64,
+    /// end of the run
+    htot: u64,
+}
+
+fn plan(c: &IdleCase) -> Plan {
+    let tp = c.t.filter(|t| *t > 0).unwrap_or(100) as u64;
+    let lp = c.l.filter(|l| *l > 0).unwrap_or(0) as u64;
+    let h1 = if lp > 0 && c.peer == PeerPat::Silent {
+        0
+    } else if lp == 0 && c.peer == PeerPat::Silent {
+        // nothing armed on the library's side: a long silence must not tear the connection down
+        (12 * tp).max(720_000)
+    } else {
+        12 * tp.max(lp)
+    };
+    let mut acts: Vec<(u64, Act)> = vec![];
+    // peer
+    let mut last_peer = 0;
+    if c.peer != PeerPat::Silent {
+        let period = if lp > 0 { lp - 1 } else { tp / 2 }.max(1);
+        let until = if lp > 0 { h1 } else { 12 * tp };
+        let mut t = 0;
+        while t <= until {
+            acts.push((t, if c.peer == PeerPat::KeepEmpty { Act::PeerEmpty } else { Act::PeerReal }));
+            last_peer = t;
+            t += period;
+        }
+    }
+    // AMQP allows an implementation to wait up to 2x before it gives up; 50 ms of slack on top
+    let htot = if lp > 0 { last_peer + 2 * lp + 50 } else { h1 };
+    // library application: during the first 12*T and during the silence phase
+    let in_window = |t: u64| t <= 12 * tp || (lp > 0 && t >= h1);
+    match c.lib {
+        LibPat::Silent => {}
+        LibPat::Steady => {
+            let step = (tp / 4).max(1);
+            let mut t = step;
+            while t <= htot {
+                if in_window(t) {
+                    acts.push((t, Act::LibSend(1)));
+                }
+                t += step;
+            }
+        }
+        LibPat::Bursts(d) => {
+            let gap = ((tp as i64) + d as i64).max(1) as u64;
+            let mut t = gap;
+            while t <= htot {
+                if in_window(t) {
+                    acts.push((t, Act::LibSend(3)));
+                }
+                t += gap;
+            }
+        }
+    }
+    acts.sort_by_key(|a| a.0);
+    Plan { acts, h1, htot }
+}
+
+type Fired = Arc<Mutex<Option<(Duration, String, bool)>>>;
+
+pub async fn idle_scenario(c: IdleCase) -> IdleObs {
+    let mut obs = IdleObs::default();
+    let (pipe, a, _b) = Pipe::new();
+    let t0 = tokio::time::Instant::now();
+    let h = Duration::from_secs(5);
+    let fired: Fired = Arc::new(Mutex::new(None));
+    let mut peer;
+    // objects that must stay alive for the whole run
+    let mut _client_session: Option<SessionHandle<()>> = None;
+    let mut _listener_session: Option<ListenerSessionHandle> = None;
+    let mut sender: Option<Sender> = None;
+    // (peer's channel, library's channel) of the session used for real keep-alive frames
+    let mut real_session: Option<(u16, u16)> = None;
+    macro_rules! bail {
+        ($($arg:tt)*) => {{
+            obs.machinery = Some(format!("{:?}: {}; trace {:?}", c, format!($($arg)*), trace_to_strings(&peer.trace)));
+            return obs;
+        }};
+    }
+    match c.role {
+        Role::Client => {
+            let mut auto = Auto::default();
+            auto.max_frame_size = 4096;
+            auto.idle_time_out = c.t;
+            auto.grant_credit = Some(1_000_000);
+            auto.incoming_window = 10_000_000;
+            auto.outgoing_window = 10_000_000;
+            peer = Peer::new(pipe.clone(), 1, auto);
+            let mut b = Connection::builder().container_id("lib").max_frame_size(4096);
+            if let Some(l) = c.l {
+                b = b.idle_time_out(l);
+            }
+            let mut conn = match drive(&mut peer, b.open_with_stream(a), h).await {
+                Some(Ok(x)) => x,
+                other => bail!("open did not succeed: {:?}", other.map(|r| r.map(|_| ()).map_err(|e| e.to_string()))),
+            };
+            if c.lib != LibPat::Silent || c.peer == PeerPat::KeepReal {
+                let mut sess = match drive(&mut peer, Session::begin(&mut conn), h).await {
+                    Some(Ok(x)) => x,
+                    other => bail!("begin did not succeed: {:?}", other.map(|r| r.map(|_| ()).map_err(|e| e.to_string()))),
+                };
+                real_session = Some((peer.our_channel(0), 0));
+                if c.lib != LibPat::Silent {
+                    let att = Sender::builder().name("s").target("q").sender_settle_mode(SenderSettleMode::Settled).attach(&mut sess);
+                    match drive(&mut peer, att, h).await {
+                        Some(Ok(x)) => sender = Some(x),
+                        other => bail!("attach did not succeed: {:?}", other.map(|r| r.map(|_| ()).map_err(|e| format!("{e:?}")))),
+                    }
+                }
+                _client_session = Some(sess);
+            }
+            let f = fired.clone();
+            tokio::spawn(async move {
+                let r = conn.on_close().await;
+                *f.lock().unwrap() = Some((t0.elapsed(), format!("{:?}", r), r.is_err()));
+                std::future::pending::<()>().await;
+                drop(conn);
+            });
+        }
+        Role::Listener => {
+            let mut auto = Auto::none();
+            auto.max_frame_size = 4096;
+            peer = Peer::new(pipe.clone(), 1, auto);
+            peer.send_proto_header(AMQP_HEADER);
+            peer.send(0, Performative::Open(peer_open(100, c.t)));
+            let mut b = ConnectionAcceptor::builder().container_id("lib-listener").max_frame_size(4096);
+            if let Some(l) = c.l {
+                b = b.idle_time_out(l);
+            }
+            let acceptor = b.build();
+            let mut conn = match drive(&mut peer, acceptor.accept(a), h).await {
+                Some(Ok(x)) => x,
+                other => bail!("accept did not succeed: {:?}", other.map(|r| r.map(|_| ()).map_err(|e| e.to_string()))),
+            };
+            if c.peer == PeerPat::KeepReal {
+                peer.send(0, Performative::Begin(peer_begin()));
+                settle(&mut peer, 1).await;
+                let inc = match tokio::time::timeout(Duration::from_millis(2), conn.next_incoming_session()).await {
+                    Ok(Some(i)) => i,
+                    _ => bail!("the listener did not report the incoming session"),
+                };
+                match drive(&mut peer, SessionAcceptor::new().accept_incoming_session(inc, &mut conn), h).await {
+                    Some(Ok(x)) => _listener_session = Some(x),
+                    other => bail!("accept_incoming_session did not succeed: {:?}", other.map(|r| r.map(|_| ()).map_err(|e| format!("{e:?}")))),
+                }
+                settle(&mut peer, 1).await;
+                let lib_ch = peer.trace.iter().find_map(|w| match (&w.body, w.dir) {
+                    (Body::Perf(Performative::Begin(_)), Dirn::FromLib) => Some(w.channel),
+                    _ => None,
+                });
+                match lib_ch {
+                    Some(lc) => real_session = Some((0, lc)),
+                    None => bail!("the listener did not answer the begin"),
+                }
+            }
+            let f = fired.clone();
+            tokio::spawn(async move {
+                let r = conn.on_close().await;
+                *f.lock().unwrap() = Some((t0.elapsed(), format!("{:?}", r), r.is_err()));
+                std::future::pending::<()>().await;
+                drop(conn);
+            });
+        }
+    }
+    settle(&mut peer, 1).await;
+    if let Some(f) = fired.lock().unwrap().clone() {
+        bail!("the connection stopped during the set-up: {:?}", f);
+    }
+    obs.keys.push(h64(&("open", c.role, c.t.map(|t| t > 0), c.l.map(|l| l > 0))));
+    // ---------------------------------------------------------------- the timeline
+    let p = plan(&c);
+    let p0 = tokio::time::Instant::now();
+    let mut lib_stopped = false;
+    let mut first_send_error: Option<(u64, String)> = None;
+    let mut h1_checked = p.h1 == 0;
+    let mut up_at_h1 = true;
+    let mut n_sent = 0u32;
+    for (tm, act) in p.acts.iter() {
+        if !h1_checked && *tm > p.h1 {
+            tokio::time::sleep_until(p0 + Duration::from_millis(p.h1)).await;
+            up_at_h1 = fired.lock().unwrap().is_none();
+            h1_checked = true;
+        }
+        tokio::time::sleep_until(p0 + Duration::from_millis(*tm)).await;
+        match act {
+            Act::PeerEmpty => {
+                peer.pump();
+                peer.send_empty();
+                obs.peer_keepalives += 1;
+            }
+            Act::PeerReal => {
+                peer.pump();
+                let (pch, lch) = real_session.unwrap();
+                let mut f = peer.flow_for(lch);
+                if c.role == Role::Listener {
+                    f.incoming_window = 1000;
+                    f.outgoing_window = 1000;
+                }
+                peer.send(pch, Performative::Flow(f));
+                obs.peer_keepalives += 1;
+            }
+            Act::LibSend(k) => {
+                if lib_stopped || fired.lock().unwrap().is_some() {
+                    lib_stopped = true;
+                    continue;
+                }
+                let snd = sender.as_mut().unwrap();
+                for _ in 0..*k {
+                    n_sent += 1;
+                    // pre-settled: completes at the same virtual instant, without the peer
+                    match tokio::time::timeout(Duration::from_millis(200), snd.send(format!("m{n_sent}"))).await {
+                        Ok(Ok(_)) => obs.sends_ok += 1,
+                        Ok(Err(e)) => {
+                            first_send_error.get_or_insert((ms(p0.elapsed()), format!("{e:?}")));
+                            lib_stopped = true;
+                            break;
+                        }
+                        Err(_) => {
+                            first_send_error.get_or_insert((ms(p0.elapsed()), "send still pending after 200 ms".into()));
+                            lib_stopped = true;
+                            break;
+                        }
+                    }
+                }
+            }
+        }
+    }
+    if !h1_checked {
+        tokio::time::sleep_until(p0 + Duration::from_millis(p.h1)).await;
+        up_at_h1 = fired.lock().unwrap().is_none();
+    }
+    tokio::time::sleep_until(p0 + Duration::from_millis(p.htot)).await;
+    tokio::time::sleep(Duration::from_millis(1)).await;
+    // read what is left on the wire without answering anything any more
+    peer.auto = Auto::none();
+    peer.pump();
+    let t_end_run = t0.elapsed();
+    // ---------------------------------------------------------------- judging
+    let log = pipe.log();
+    let starts = lib_frame_starts(&log);
+    let fired_v = fired.lock().unwrap().clone();
+    let lp = c.l.filter(|l| *l > 0).map(|l| l as u64);
+    let tp = c.t.filter(|t| *t > 0).map(|t| t as u64);
+    let peer_open_t = peer.trace.iter().find_map(|w| match (&w.body, w.dir) {
+        (Body::Perf(Performative::Open(_)), Dirn::FromPeer) => Some(w.t),
+        _ => None,
+    });
+    let lib_close_t = starts.iter().find(|s| s.1 == 0x18).map(|s| s.0);
+    let peer_frame_times: Vec<Duration> = peer.trace.iter().filter(|w| w.dir == Dirn::FromPeer).map(|w| w.t).collect();
+    let transport_closed = pipe.peer_closed(1);
+    let Some(peer_open_t) = peer_open_t else {
+        bail!("the peer's open is not in the trace");
+    };
+    // the connection is "open" until the library writes its close, reports the stop, or the run ends
+    let mut t_end = t_end_run;
+    if let Some(t) = lib_close_t {
+        t_end = t_end.min(t);
+    }
+    if let Some((t, _, _)) = &fired_v {
+        t_end = t_end.min(*t);
+    }
+    // --- oracle T: no interval longer than T without a frame start.  Permissive: == T passes.
+    obs.heartbeats = starts.iter().filter(|s| s.1 == 0 && s.0 >= peer_open_t).count();
+    obs.lib_frames = starts.iter().filter(|s| s.0 >= peer_open_t && s.1 != 0xff).count();
+    if let Some(t) = tp {
+        let mut pts: Vec<(Duration, String)> = vec![(peer_open_t, "the peer's open".into())];
+        for s in starts.iter().filter(|s| s.0 >= peer_open_t && s.0 <= t_end && s.1 != 0xff) {
+            pts.push((s.0, if s.1 == 0 { "an empty frame".into() } else { format!("a frame with performative code 0x{:02x}", s.1) }));
+        }
+        pts.push((t_end, "the end of the observation (close / teardown / horizon)".into()));
+        let mut worst: Option<(u64, usize)> = None;
+        for (i, w) in pts.windows(2).enumerate() {
+            let g = ms(w[1].0 - w[0].0);
+            obs.max_gap_ms = obs.max_gap_ms.max(g);
+            if g > t && worst.map_or(true, |x| g > x.0) {
+                worst = Some((g, i));
+            }
+        }
+        if let Some((g, i)) = worst {
+            obs.fails.push((
+                format!("frame-gap-exceeds-peer-idle-time-out [{:?}]", c.role),
+                format!(
+                    "the peer advertised idle-time-out {t} ms but {g} ms passed between {} at {} ms and {} at {} ms while the connection was open (application pattern {:?}, peer pattern {:?}, local idle time-out {:?})",
+                    pts[i].1,
+                    ms(pts[i].0),
+                    pts[i + 1].1,
+                    ms(pts[i + 1].0),
+                    c.lib,
+                    c.peer,
+                    c.l
+                ),
+            ));
+        }
+        // non-vacuity: where would the application's own frames have left a hole?
+        let app: Vec<Duration> = starts.iter().filter(|s| s.0 >= peer_open_t && s.0 <= t_end && s.1 != 0 && s.1 != 0xff).map(|s| s.0).collect();
+        let mut prev = peer_open_t;
+        for x in app.iter().chain(std::iter::once(&t_end)) {
+            if ms(*x - prev) > t {
+                obs.app_gaps_over_t += 1;
+            }
+            prev = *x;
+        }
+    }
+    // --- oracle L
+    let last_peer_before = |t: Duration| peer_frame_times.iter().filter(|x| **x <= t).max().copied();
+    match (&fired_v, lp) {
+        (None, None) => {
+            obs.kept_up = false;
+            if lib_close_t.is_some() || transport_closed {
+                obs.machinery = Some(format!("{:?}: no local idle time-out, on_close pending, but the wire shows close={:?} transport_closed={transport_closed}", c, lib_close_t));
+            }
+        }
+        (Some((t, res, is_err)), None) => {
+            // nothing was configured: an idle teardown is a violation, anything else is not this property's business
+            if *is_err && is_idle_error(res) {
+                obs.fails.push((
+                    format!("idle-teardown-without-local-idle-time-out [{:?}]", c.role),
+                    format!("local idle time-out is {:?} (= none) but on_close() resolved with {res} at {} ms", c.l, ms(*t)),
+                ));
+            } else {
+                obs.machinery = Some(format!("{:?}: the connection stopped at {} ms with {res} although nothing should stop it; trace tail {:?}", c, ms(*t), tail_trace(&peer.trace, 10)));
+            }
+        }
+        (None, Some(l)) => {
+            obs.kept_up = up_at_h1 && p.h1 > 0;
+            let last = last_peer_before(t_end_run).unwrap_or(peer_open_t);
+            obs.fails.push((
+                format!("no-teardown-after-idle-time-out [{:?}]", c.role),
+                format!(
+                    "local idle time-out {l} ms; the peer's last frame arrived at {} ms and {} ms of silence followed, yet on_close() is still pending (close frame: {:?}, transport closed: {transport_closed})",
+                    ms(last),
+                    ms(t_end_run - last),
+                    lib_close_t.map(ms)
+                ),
+            ));
+        }
+        (Some((t, res, is_err)), Some(l)) => {
+            let last = last_peer_before(*t).unwrap_or(peer_open_t);
+            let silence = ms(*t - last);
+            obs.teardown = Some((silence, res.clone()));
+            obs.kept_up = up_at_h1 && p.h1 > 0;
+            if *is_err && !is_idle_error(res) && silence < l {
+                obs.machinery = Some(format!("{:?}: the connection stopped at {} ms with {res} for a reason other than the idle time-out; trace tail {:?}", c, ms(*t), tail_trace(&peer.trace, 10)));
+            } else {
+                // "does not do so while frames keep arriving in time": permissive, silence == L may already fire
+                if silence < l {
+                    obs.fails.push((
+                        format!("torn-down-while-frames-arrive-in-time [{:?}]", c.role),
+                        format!(
+                            "local idle time-out {l} ms; on_close() resolved with {res} at {} ms, only {silence} ms after a frame of the peer arrived at {} ms (peer pattern {:?}, application pattern {:?})",
+                            ms(*t),
+                            ms(last),
+                            c.peer,
+                            c.lib
+                        ),
+                    ));
+                }
+                // permissive upper bound: 2*L + 50 ms
+                if silence > 2 * l + 50 {
+                    obs.fails.push((
+                        format!("idle-teardown-late [{:?}]", c.role),
+                        format!("local idle time-out {l} ms; torn down only after {silence} ms of silence"),
+                    ));
+                }
+                // "reports the time-out to the application"
+                if !*is_err || !is_idle_error(res) {
+                    obs.fails.push((
+                        format!("idle-time-out-not-reported [{:?}]", c.role),
+                        format!("local idle time-out {l} ms elapsed ({silence} ms of silence) and the connection stopped, but on_close() returned {res}, which does not name the idle time-out"),
+                    ));
+                }
+                // "tears the connection down": a close frame or a closed transport
+                if lib_close_t.is_none() && !transport_closed {
+                    obs.fails.push((
+                        format!("idle-time-out-reported-but-transport-left-open [{:?}]", c.role),
+                        format!("local idle time-out {l} ms: on_close() returned {res} but the library neither wrote a close frame nor closed the transport"),
+                    ));
+                }
+            }
+        }
+    }
+    if let (Some((at, e)), Some(_)) = (&first_send_error, lp) {
+        obs.trace.push(format!("first failing send at {at} ms after the start of the timeline: {e}"));
+    }
+    if let (Some((at, e)), None) = (&first_send_error, lp) {
+        if obs.machinery.is_none() && obs.fails.is_empty() {
+            obs.machinery = Some(format!("{:?}: a send failed at {at} ms after the start of the timeline although the connection should be up: {e}", c));
+        }
+    }
+    obs.keys.push(h64(&("phase1", c.role, p.h1 > 0, up_at_h1, obs.heartbeats > 0, obs.peer_keepalives > 0, obs.sends_ok > 0)));
+    obs.keys.push(h64(&(
+        "end",
+        c.role,
+        fired_v.as_ref().map(|f| (f.2, is_idle_error(&f.1))),
+        lib_close_t.is_some(),
+        transport_closed,
+        obs.app_gaps_over_t > 0,
+        obs.fails.iter().map(|f| f.0.clone()).collect::<Vec<_>>(),
+    )));
+    // compact trace: set-up frames, then a summary of the timeline
+    let mut tr: Vec<String> = peer.trace.iter().take(14).map(|w| format!("{:>7} ms {}", ms(w.t), w.short())).collect();
+    tr.push(format!(
+        "plan: keep-alive phase until {} ms, run until {} ms after set-up ({} ms); {} scheduled actions",
+        p.h1,
+        p.htot,
+        ms(p0 - t0),
+        p.acts.len()
+    ));
+    let fs: Vec<String> = starts.iter().filter(|s| s.0 >= peer_open_t && s.1 != 0xff).map(|s| format!("{}:{}", ms(s.0), if s.1 == 0 { "E".into() } else { format!("{:02x}", s.1) })).collect();
+    let shown = if fs.len() > 40 { format!("{} ... {}", fs[..25].join(" "), fs[fs.len() - 10..].join(" ")) } else { fs.join(" ") };
+    tr.push(format!("library frame starts (ms:kind, E = empty): {shown}"));
+    tr.push(format!(
+        "heartbeats={} lib_frames={} max_gap={} ms peer_keepalives={} sends_ok={} up_at_end_of_keepalive={} on_close={:?} close_frame_at={:?} transport_closed={}",
+        obs.heartbeats,
+        obs.lib_frames,
+        obs.max_gap_ms,
+        obs.peer_keepalives,
+        obs.sends_ok,
+        up_at_h1,
+        fired_v.as_ref().map(|f| (ms(f.0), f.1.clone())),
+        lib_close_t.map(ms),
+        transport_closed
+    ));
+    tr.append(&mut obs.trace);
+    obs.trace = tr;
+    obs
+}
+
+pub struct IdleRun {
+    pub obs: Option<IdleObs>,
+    pub machinery: Option<String>,
+}
+
+fn run_idle(c: IdleCase) -> IdleRun {
+    let scen: Scenario<IdleObs> = Arc::new(move || Box::pin(idle_scenario(c)));
+    let mut cfg = RunCfg::none();
+    cfg.real_timeout = Duration::from_secs(120);
+    let ex = run_exec(vec![], &cfg, &scen);
+    let mut machinery = None;
+    if ex.watchdog {
+        machinery = Some(format!("{:?}: the execution did not finish in real time (watchdog)", c));
+    } else if ex.out.is_none() {
+        machinery = Some(format!("{:?}: scenario panicked: {:?}", c, ex.panics));
+    } else if ex.spun {
+        machinery = Some(format!("{:?}: busy loop (more than 20000 polls at one virtual instant); trace {:?}", c, ex.out.as_ref().map(|o| o.trace.clone())));
+    } else if !ex.panics.is_empty() {
+        // a panic of a library task is not this property's verdict (see C14/C15): handed to the owner
+        machinery = Some(format!("{:?}: panic(s) during the execution: {:?}; trace {:?}", c, ex.panics, ex.out.as_ref().map(|o| o.trace.clone())));
+    }
+    if let Some(o) = &ex.out {
+        if machinery.is_none() {
+            machinery = o.machinery.clone();
+        }
+    }
+    IdleRun { obs: ex.out, machinery }
+}
+
+fn idle_cases(quick: bool) -> Vec<IdleCase> {
+    let vals: Vec<Option<u32>> = if quick {
+        vec![None, Some(0), Some(100), Some(60_000)]
+    } else {
+        vec![None, Some(0), Some(10), Some(100), Some(1000), Some(60_000)]
+    };
+    let libs = [LibPat::Silent, LibPat::Steady, LibPat::Bursts(-1), LibPat::Bursts(0), LibPat::Bursts(1)];
+    let peers = [PeerPat::Silent, PeerPat::KeepEmpty, PeerPat::KeepReal];
+    let mut v = vec![];
+    for role in [Role::Client, Role::Listener] {
+        for t in &vals {
+            for l in &vals {
+                for lib in libs {
+                    // the listener's application stays silent (a sending link on the listener needs a link
+                    // acceptor and adds nothing to the connection-level timers)
+                    if role == Role::Listener && lib != LibPat::Silent {
+                        continue;
+                    }
+                    for peer in peers {
+                        v.push(IdleCase { role, t: *t, l: *l, lib, peer });
+                    }
+                }
+            }
+        }
+    }
+    v
+}
+
+// ================================================================================================
+// driver
+// ================================================================================================
+
+pub fn run(ctx: &Ctx) -> Outcome {
     let mut out = Outcome::new("model_checking");
-    out.machinery_errors.push("check C17 is not built yet".into());
+    if let Some(p) = &ctx.replay {
+        return replay(p, out);
+    }
+    let quick = ctx.quick();
+    let cdepth = if quick { 8 } else { 11 };
+    let ldepth = if quick { 7 } else { 9 };
+    let deadline = Instant::now() + Duration::from_secs_f64(ctx.budget_s);
+    let mut states = 0u64;
+    let mut transitions = 0u64;
+    let mut executions = 0u64;
+    let mut events = 0u64;
+    let mut truncated = false;
+    let mut samples: Vec<J> = vec![];
+    let cnt_c = ChCounters::default();
+    let cnt_l = ChCounters::default();
+
+    // ---- Part 2 first (cheap, fixed size)
+    let cases = idle_cases(quick);
+    let t_idle = Instant::now();
+    let runs = par_map(&cases, ctx.threads, |_, c| if Instant::now() > deadline { None } else { Some(run_idle(*c)) });
+    let mut idle_states = std::collections::HashSet::new();
+    let mut idle_trans = std::collections::HashSet::new();
+    let mut idle_exec = 0u64;
+    let (mut hb_cases, mut hb_needed, mut kept_up, mut torn_down, mut no_timeout_cases, mut keepalives, mut heartbeats) = (0u64, 0u64, 0u64, 0u64, 0u64, 0u64, 0u64);
+    for (c, r) in cases.iter().zip(runs) {
+        let Some(r) = r else {
+            truncated = true;
+            continue;
+        };
+        idle_exec += 1;
+        if let Some(m) = r.machinery {
+            if out.machinery_errors.len() < 8 {
+                out.machinery_errors.push(m);
+            }
+        }
+        let Some(o) = r.obs else { continue };
+        for k in &o.keys {
+            idle_states.insert(*k);
+        }
+        for (i, w) in o.keys.windows(2).enumerate() {
+            idle_trans.insert((w[0], i, w[1]));
+        }
+        if c.t.map_or(false, |t| t > 0) {
+            hb_cases += 1;
+            if o.app_gaps_over_t > 0 {
+                hb_needed += 1;
+            }
+        }
+        heartbeats += o.heartbeats as u64;
+        keepalives += o.peer_keepalives as u64;
+        if o.kept_up {
+            kept_up += 1;
+        }
+        if o.teardown.is_some() {
+            torn_down += 1;
+        }
+        if c.l.map_or(true, |l| l == 0) {
+            no_timeout_cases += 1;
+        }
+        events += 2;
+        for (s, d) in &o.fails {
+            let mut rj = c.to_json();
+            rj["trace"] = json!(o.trace);
+            out.violation(s.clone(), format!("{:?}: {d}", c), rj);
+        }
+        let interesting = c.role == Role::Client && c.t == Some(100) && c.l == Some(100) && c.lib == LibPat::Bursts(1) && c.peer == PeerPat::KeepEmpty;
+        if interesting {
+            samples.push(json!({"part": "idle", "case": format!("{:?}", c), "trace": o.trace}));
+        }
+    }
+    let idle_wall = t_idle.elapsed().as_secs_f64();
+    executions += idle_exec;
+    states += idle_states.len() as u64;
+    transitions += idle_trans.len() as u64;
+
+    // ---- Part 1a: client histories, every pair
+    let t_part = Instant::now();
+    let mut client_pairs_done = 0u64;
+    let pairs: Vec<(u16, u16)> = CHMAX.iter().flat_map(|l| CHMAX.iter().map(move |r| (*l, *r))).collect();
+    let inner = (ctx.threads / 8).max(1);
+    // violations with the executed prefix of the history (the monitor stops at the first failure)
+    type Viol = (u16, u16, Vec<usize>, String, String, Vec<String>);
+    let viol_c: Mutex<Vec<Viol>> = Mutex::new(vec![]);
+    let client_stats = par_map(&pairs, ctx.threads, |_, (local, remote)| {
+        search(CALPHA.len(), cdepth, inner, deadline, |h| {
+            let o = run_client_history(*local, *remote, h.iter().map(|i| CALPHA[*i]).collect(), false, Some(&cnt_c));
+            if !o.fails.is_empty() {
+                let mut v = viol_c.lock().unwrap();
+                for (s, d) in &o.fails {
+                    v.push((*local, *remote, h[..o.executed.min(h.len())].to_vec(), s.clone(), d.clone(), o.trace.clone()));
+                }
+            }
+            o
+        })
+    });
+    for ((local, remote), st) in pairs.iter().copied().zip(client_stats) {
+        {
+            executions += st.executions;
+            events += st.events_executed;
+            states += st.distinct_states;
+            transitions += st.distinct_transitions;
+            truncated |= st.truncated;
+            if !st.truncated {
+                client_pairs_done += 1;
+            }
+            for m in st.machinery {
+                if out.machinery_errors.len() < 8 {
+                    out.machinery_errors.push(m);
+                }
+            }
+            if local == 1 && remote == 2 {
+                if let Some(t) = st.sample_traces.into_iter().next() {
+                    samples.push(json!({"part": "chmax", "role": "Client", "local": local, "remote": remote, "trace": t}));
+                }
+            }
+        }
+    }
+    {
+        let mut v = viol_c.into_inner().unwrap();
+        v.sort_by(|a, b| (a.2.len(), &a.2, a.0, a.1, &a.3).cmp(&(b.2.len(), &b.2, b.0, b.1, &b.3)));
+        v.dedup_by(|a, b| a.0 == b.0 && a.1 == b.1 && a.2 == b.2 && a.3 == b.3);
+        for (local, remote, h, sig, detail, trace) in v {
+            let evs: Vec<String> = h.iter().map(|i| format!("{:?}", CALPHA[*i])).collect();
+            out.violation(
+                sig,
+                format!("client local={local} remote={remote}, history {:?}: {detail}", evs),
+                json!({"part": "chmax", "role": "Client", "local": local, "remote": remote, "events": h, "event_names": evs, "trace": trace}),
+            );
+        }
+    }
+    let client_wall = t_part.elapsed().as_secs_f64();
+    let t_part = Instant::now();
+    // ---- Part 1b: fill runs (the limit is really reached, also for 255 and 65535)
+    let mut fills: Vec<(u16, u16)> = vec![];
+    for local in CHMAX {
+        for remote in CHMAX {
+            fills.push((local, remote));
+        }
+    }
+    // the 65536-session run first so that it overlaps with the others
+    fills.sort_by_key(|p| std::cmp::Reverse(p.0.min(p.1)));
+    let fill_limit_hit = AtomicU64::new(0);
+    let fill_runs = par_map(&fills, ctx.threads.min(6), |_, (local, remote)| {
+        if Instant::now() > deadline {
+            return None;
+        }
+        let m = (*local).min(*remote);
+        let evs = fill_events(m);
+        let n = evs.len();
+        let o = run_client_history(*local, *remote, evs, true, Some(&cnt_c));
+        if o.executed == n {
+            fill_limit_hit.fetch_add(1, Ordering::Relaxed);
+        }
+        Some(o)
+    });
+    let mut fill_done = 0u64;
+    let mut fill_states = std::collections::HashSet::new();
+    for ((local, remote), o) in fills.iter().zip(fill_runs) {
+        let Some(o) = o else {
+            truncated = true;
+            continue;
+        };
+        fill_done += 1;
+        executions += 1;
+        events += o.executed as u64;
+        for k in &o.state_keys {
+            fill_states.insert(*k);
+        }
+        transitions += o.executed as u64;
+        if let Some(m) = o.machinery {
+            if out.machinery_errors.len() < 8 {
+                out.machinery_errors.push(m);
+            }
+        }
+        for (sig, detail) in o.fails {
+            out.violation(
+                sig,
+                format!("client local={local} remote={remote}, fill run (begin x{}, end oldest, end newest, begin x3): {detail}", (*local).min(*remote) as usize + 2),
+                json!({"part": "fill", "role": "Client", "local": local, "remote": remote, "trace": o.trace}),
+            );
+        }
+        if *local == 255 && *remote == 65535 {
+            samples.push(json!({"part": "fill", "local": local, "remote": remote, "trace": o.trace}));
+        }
+    }
+    states += fill_states.len() as u64;
+    let fill_wall = t_part.elapsed().as_secs_f64();
+    let t_part = Instant::now();
+    // ---- Part 1c: listener histories, every pair
+    let mut listener_pairs_done = 0u64;
+    let viol_l: Mutex<Vec<Viol>> = Mutex::new(vec![]);
+    let listener_stats = par_map(&pairs, ctx.threads, |_, (local, remote)| {
+        search(LALPHA.len(), ldepth, inner, deadline, |h| {
+            let o = run_listener_history(*local, *remote, h.iter().map(|i| LALPHA[*i]).collect(), Some(&cnt_l));
+            if !o.fails.is_empty() {
+                let mut v = viol_l.lock().unwrap();
+                for (s, d) in &o.fails {
+                    v.push((*local, *remote, h[..o.executed.min(h.len())].to_vec(), s.clone(), d.clone(), o.trace.clone()));
+                }
+            }
+            o
+        })
+    });
+    for ((local, remote), st) in pairs.iter().copied().zip(listener_stats) {
+        {
+            executions += st.executions;
+            events += st.events_executed;
+            states += st.distinct_states;
+            transitions += st.distinct_transitions;
+            truncated |= st.truncated;
+            if !st.truncated {
+                listener_pairs_done += 1;
+            }
+            for m in st.machinery {
+                if out.machinery_errors.len() < 8 {
+                    out.machinery_errors.push(m);
+                }
+            }
+            if local == 2 && remote == 1 {
+                if let Some(t) = st.sample_traces.into_iter().next() {
+                    samples.push(json!({"part": "chmax", "role": "Listener", "local": local, "remote": remote, "trace": t}));
+                }
+            }
+        }
+    }
+    {
+        let mut v = viol_l.into_inner().unwrap();
+        v.sort_by(|a, b| (a.2.len(), &a.2, a.0, a.1, &a.3).cmp(&(b.2.len(), &b.2, b.0, b.1, &b.3)));
+        v.dedup_by(|a, b| a.0 == b.0 && a.1 == b.1 && a.2 == b.2 && a.3 == b.3);
+        for (local, remote, h, sig, detail, trace) in v {
+            let evs: Vec<String> = h.iter().map(|i| format!("{:?}", LALPHA[*i])).collect();
+            out.violation(
+                sig,
+                format!("listener local={local} remote={remote}, history {:?}: {detail}", evs),
+                json!({"part": "chmax", "role": "Listener", "local": local, "remote": remote, "events": h, "event_names": evs, "trace": trace}),
+            );
+        }
+    }
+    let listener_wall = t_part.elapsed().as_secs_f64();
+    // ---- non-vacuity
+    let refusals_c = cnt_c.refusals.load(Ordering::Relaxed);
+    let refusals_l = cnt_l.refusals.load(Ordering::Relaxed);
+    if !truncated && out.violations.is_empty() {
+        if refusals_c == 0 || cnt_c.limit_reached.load(Ordering::Relaxed) == 0 {
+            out.machinery_errors.push("non-vacuity: no client execution reached the channel-max limit / was refused".into());
+        }
+        if cnt_l.peer_excess.load(Ordering::Relaxed) == 0 {
+            out.machinery_errors.push("non-vacuity: the scripted client never exceeded the limit in the listener runs".into());
+        }
+        if hb_needed == 0 || kept_up == 0 || torn_down == 0 {
+            out.machinery_errors.push(format!("non-vacuity: idle part did not exercise the timers (heartbeat needed in {hb_needed} cases, kept up in {kept_up}, torn down in {torn_down})"));
+        }
+    }
+    out.set("states", states.max(1));
+    out.set("transitions", transitions.max(1));
+    out.set("traces_validated_against_impl", executions);
+    out.set("executions", executions);
+    out.set("events_executed", events);
+    out.set("samples", json!(samples));
+    out.set("exhaustive", !truncated);
+    out.set(
+        "bound",
+        format!(
+            "channel-max: (local, remote) in {{0,1,2,255,65535}}^2; client: all histories of depth {cdepth} over {{begin, end oldest, end newest}} per pair ({client_pairs_done}/25 pairs complete) + {fill_done} fill runs (begin until refused, free two, re-begin{}); listener: all histories of depth {ldepth} over {{begin on lowest free channel, begin on channel min+1, end oldest, end newest}} per pair ({listener_pairs_done}/25 complete). idle: roles x T x L in {:?}^2 x application pattern {{silent, steady T/4, bursts with gaps T-1, T, T+1 ms}} (listener: silent) x peer pattern {{silent, empty frame every L-1 ms, flow frame every L-1 ms}}, horizon 12*max(T,L) (720 s of silence when nothing is armed) + 2L+50 ms of silence = {} cases",
+            "; includes the run with 65536 sessions for (65535, 65535)",
+            if quick { vec!["unset", "0", "100ms", "60s"] } else { vec!["unset", "0", "10ms", "100ms", "1s", "60s"] },
+            cases.len()
+        ),
+    );
+    out.set(
+        "rule",
+        "states = distinct observable states at quiescence: channel-max part = (ordered list of open channels, outcome of the last operation[, connection closed/with error]); idle part = (role, which timers are armed, connection up at the end of the keep-alive phase, heartbeats seen, teardown/report class); transitions = distinct (state, event, state) triples; every state is reached by executing the real connection engine on the paused tokio clock",
+    );
+    out.set("client_begin_refusals", refusals_c);
+    out.set("client_executions_reaching_the_limit", cnt_c.limit_reached.load(Ordering::Relaxed));
+    out.set("client_begin_frames", cnt_c.lib_begins.load(Ordering::Relaxed));
+    out.set("fill_runs_complete", fill_limit_hit.load(Ordering::Relaxed));
+    out.set("listener_excess_begins_by_peer", cnt_l.peer_excess.load(Ordering::Relaxed));
+    out.set("listener_connections_closed_with_error", refusals_l);
+    out.set("listener_begin_frames", cnt_l.lib_begins.load(Ordering::Relaxed));
+    out.set("idle_cases", idle_exec);
+    out.set("idle_cases_with_peer_time_out", hb_cases);
+    out.set("idle_cases_where_only_heartbeats_fill_a_gap", hb_needed);
+    out.set("idle_heartbeats_observed", heartbeats);
+    out.set("idle_peer_keepalive_frames", keepalives);
+    out.set("idle_cases_kept_up_through_keepalive_phase", kept_up);
+    out.set("idle_cases_torn_down_after_silence", torn_down);
+    out.set("idle_cases_without_local_time_out", no_timeout_cases);
+    out.set("idle_wall_s", (idle_wall * 100.0).round() / 100.0);
+    out.set("client_histories_wall_s", (client_wall * 100.0).round() / 100.0);
+    out.set("fill_wall_s", (fill_wall * 100.0).round() / 100.0);
+    out.set("listener_histories_wall_s", (listener_wall * 100.0).round() / 100.0);
+    out.assume("the scripted peer acts at quiescent points of the virtual clock only; frame times are the virtual instants of the transport writes (vpipe byte log)");
+    out.assume("heartbeat oracle, permissive reading: a gap of exactly T between consecutive frame starts passes; measurement starts at the peer's open");
+    out.assume("local idle time-out, permissive reading: teardown may happen anywhere in [L, 2L+50 ms] of silence; any error whose text names an idle time-out / timeout counts as the report; L = 0 is the same as unset");
+    out.assume("liveness of begin is only reported when at most min(local, remote) sessions are open (channel-max N = N+1 sessions)");
+    out
+}
+
+fn replay(p: &std::path::Path, mut out: Outcome) -> Outcome {
+    let s = std::fs::read_to_string(p).unwrap_or_default();
+    let j: J = serde_json::from_str(&s).unwrap_or_default();
+    let r = &j["replay"];
+    let local = r["local"].as_u64().unwrap_or(0) as u16;
+    let remote = r["remote"].as_u64().unwrap_or(0) as u16;
+    let idx: Vec<usize> = r["events"].as_array().map(|a| a.iter().filter_map(|x| x.as_u64()).map(|i| i as usize).collect()).unwrap_or_default();
+    let (fails, trace, machinery): (Vec<(String, String)>, Vec<String>, Option<String>) = match (r["part"].as_str().unwrap_or(""), r["role"].as_str().unwrap_or("")) {
+        ("idle", _) => {
+            let Some(c) = IdleCase::from_json(r) else {
+                out.machinery_errors.push("cannot parse the idle case of the replay file".into());
+                return out;
+            };
+            println!("replaying {:?}", c);
+            let run = run_idle(c);
+            match run.obs {
+                Some(o) => (o.fails.into_iter().map(|(s, d)| (s, format!("{:?}: {d}", c))).collect(), o.trace, run.machinery),
+                None => (vec![], vec![], run.machinery),
+            }
+        }
+        ("fill", _) => {
+            println!("replaying fill run local={local} remote={remote}");
+            let o = run_client_history(local, remote, fill_events(local.min(remote)), true, None);
+            (o.fails, o.trace, o.machinery)
+        }
+        (_, "Listener") => {
+            let evs: Vec<LEv> = idx.iter().map(|i| LALPHA[*i % LALPHA.len()]).collect();
+            println!("replaying listener local={local} remote={remote} {:?}", evs);
+            let o = run_listener_history(local, remote, evs, None);
+            (o.fails, o.trace, o.machinery)
+        }
+        _ => {
+            let evs: Vec<CEv> = idx.iter().map(|i| CALPHA[*i % CALPHA.len()]).collect();
+            println!("replaying client local={local} remote={remote} {:?}", evs);
+            let o = run_client_history(local, remote, evs, false, None);
+            (o.fails, o.trace, o.machinery)
+        }
+    };
+    for l in &trace {
+        println!("  {l}");
+    }
+    if let Some(m) = machinery {
+        out.machinery_errors.push(m);
+    }
+    for (s, d) in fails {
+        println!("  FAIL {s}: {d}");
+        out.violation(s, d, r.clone());
+    }
+    out.set("states", 1);
+    out.set("transitions", 1);
+    out.set("traces_validated_against_impl", 1);
+    out.set("samples", json!([r]));
     out
 }
